@@ -97,6 +97,11 @@ func (s *metricSchemaStore) genFieldID(id metric.ID, f field.Meta, limits *model
 	}
 	// put into schema if schema not exist under mutable store
 	s.mutable.PutIfNotExist(uint32(id), schema)
+	// use the schema of mutable store, other goroutine maybe put a new schema after GetSchema of this goroutine,
+	// else the field/tag key is added to a private schema and lost(different names get same id)
+	if exist, ok := s.mutable.Get(uint32(id)); ok {
+		schema = exist
+	}
 
 	fm, ok := schema.Fields.Find(f.Name)
 	if ok {
@@ -130,6 +135,11 @@ func (s *metricSchemaStore) genTagKeyID(id metric.ID, tagKey []byte, limits *mod
 	}
 	// put into schema if schema not exist under mutable store
 	s.mutable.PutIfNotExist(uint32(id), schema)
+	// use the schema of mutable store, other goroutine maybe put a new schema after GetSchema of this goroutine,
+	// else the field/tag key is added to a private schema and lost(different names get same id)
+	if exist, ok := s.mutable.Get(uint32(id)); ok {
+		schema = exist
+	}
 
 	tm, ok := schema.TagKeys.Find(strutil.ByteSlice2String(tagKey))
 	if ok {
